@@ -18,11 +18,15 @@
     own descendant; the top node is not re-created or inserted; and the call did not raise RecursionError
     (subtree deeper than the traversal budget — Python's recursion limit).
   * `detached_never_listed`, `docByType_exact`, `text_node_remove_keeps_index`, `text_node_append_keeps_index`.
-  * the style dictionary: `CohStyles` is the full-strength statement; it is NOT an invariant of the code:
-    `finding_style_rename`, `finding_style_rename_breaks_CohStyles`, `finding_style_duplicate_name` are proved
-    counter-examples (known findings KF-C09-1/2).  That is why the step / reachability theorems carry
-    `_partial`: they cover the element index and ownerDocument, not name lookups (only
-    `styles_register_partial` is proved about those); name lookups are tied by correspondence and oracle.
+  * name lookups (`registeredStyle`, `lookupStyle`, `styleByName` as repaired by fe6d0ae / 29f2068):
+    `lookupStyle_spec`: the lookup changes nothing but the style dictionary and answers `none` exactly when
+    no attached style:style under office:styles / office:automatic-styles bears the name, otherwise such a
+    style — whatever the dictionary held (stale entries are dropped, never shown); `SdQ` (every entry is a
+    style:style) holds in every reachable state (`sdq_step`); `getStyleByName_correct_partial` puts it together
+    for every state reachable from a fresh document.  Two attached styles may bear one name (user rename, or
+    the 'M'+name of a second clash): the answer is then one of them.
+  `_partial` now only means: histories in which no call raised RecursionError and no node was inserted
+  into itself or its own descendant (`HistoryOk`, `HistoryOk2`).
 -/
 import OdfModel.DomDoc
 import OdfModel.Props.C08
@@ -396,38 +400,87 @@ theorem removeOne_run (x : Id) (s : DState) : (removeOne x).run s = (removeOnePu
   unfold removeOne removeOnePure
   simp only [DomDoc.run_bind_upd, dropStyleEntry_run]
 
-/-- `__register_stylename` as a function -/
-def registerPure (x : Id) (s : DState) : DState :=
-  match lookupAttr KEY_STYLE_NAME (s.heap x).attrs with
-  | none => s
+/-- the part of the state the element index and ownerDocument live in is unchanged (attribute values
+    and the style dictionary may differ) -/
+def IdxSame (s s' : DState) : Prop :=
+  SameLinks s.heap s'.heap ∧ s'.ownedL = s.ownedL ∧ s'.top = s.top ∧ s'.edict = s.edict
+
+theorem IdxSame.refl (s : DState) : IdxSame s s := ⟨SameLinks.refl _, rfl, rfl, rfl⟩
+theorem IdxSame.trans {a b c : DState} (h1 : IdxSame a b) (h2 : IdxSame b c) : IdxSame a c :=
+  ⟨SameLinks.trans h1.1 h2.1, h2.2.1.trans h1.2.1, h2.2.2.1.trans h1.2.2.1, h2.2.2.2.trans h1.2.2.2⟩
+
+/-- a statement sequence that never raises and leaves links, owners, element index alone -/
+def Keeps {α : Type} (m : DM α) : Prop := ∀ s s' r, m.run s = (s', r) → IdxSame s s' ∧ ∃ a, r = .ok a
+
+theorem keeps_pure {α : Type} (a : α) : Keeps (pure a : DM α) := by
+  intro s s' r h; cases h; exact ⟨IdxSame.refl s, a, rfl⟩
+theorem keeps_rd {α : Type} (f : DState → α) : Keeps (rdD f) := by
+  intro s s' r h; cases h; exact ⟨IdxSame.refl s, _, rfl⟩
+theorem keeps_upd (f : DState → DState) (hf : ∀ s, IdxSame s (f s)) : Keeps (updD f) := by
+  intro s s' r h; cases h; exact ⟨hf s, (), rfl⟩
+theorem keeps_bind {α β : Type} {m : DM α} {k : α → DM β} (hm : Keeps m) (hk : ∀ a, Keeps (k a)) :
+    Keeps (m >>= k) := by
+  intro s s' r h
+  rw [DomDoc.run_bind] at h
+  rcases hx : m.run s with ⟨s1, r1⟩
+  rw [hx] at h
+  obtain ⟨h1, a, ha⟩ := hm s s1 r1 hx
+  subst ha
+  simp only at h
+  obtain ⟨h2, b, hb⟩ := hk a s1 s' r h
+  exact ⟨IdxSame.trans h1 h2, b, hb⟩
+theorem keeps_ite {α : Type} (c : Prop) [Decidable c] {a b : DM α} (ha : Keeps a) (hb : Keeps b) :
+    Keeps (if c then a else b) := by
+  split
+  · exact ha
+  · exact hb
+
+theorem registeredStyle_keeps (n : Nat) : Keeps (registeredStyle n) := by
+  intro s s' r h
+  unfold registeredStyle DM.run at h
+  dsimp only at h
+  split at h
+  · cases h; exact ⟨IdxSame.refl s, _, rfl⟩
+  · split at h
+    · cases h; exact ⟨IdxSame.refl s, _, rfl⟩
+    · cases h; exact ⟨⟨SameLinks.refl _, rfl, rfl, rfl⟩, _, rfl⟩
+
+theorem registerStyle_keeps (x : Id) : Keeps (registerStyle x) := by
+  unfold registerStyle
+  apply keeps_bind (keeps_rd _)
+  intro on
+  cases on with
+  | none => exact keeps_pure ()
   | some name =>
-    match (s.heap x).parent with
-    | none => s
+    apply keeps_bind (keeps_rd _)
+    intro op
+    cases op with
+    | none => exact keeps_pure ()
     | some pp =>
-      if (s.heap pp).qn = QN_STYLES ∨ (s.heap pp).qn = QN_AUTOSTYLES then
-        if (sdGet s.sdict name).isSome then
-          { s with fix := storeAttr name (mName name) s.fix,
-                   heap := setAttrs s.heap x (storeAttr KEY_STYLE_NAME (mName name) (s.heap x).attrs),
-                   sdict := sdSet s.sdict (mName name) x }
-        else { s with sdict := sdSet s.sdict name x }
-      else s
+      apply keeps_bind (keeps_rd _)
+      intro pq
+      apply keeps_ite
+      · apply keeps_bind (registeredStyle_keeps name)
+        intro cur
+        apply keeps_ite
+        · apply keeps_bind
+          · apply keeps_upd; intro s; exact ⟨SameLinks.refl _, rfl, rfl, rfl⟩
+          · intro _
+            apply keeps_bind
+            · apply keeps_upd; intro s; exact ⟨sameLinks_setAttrs _ _ _, rfl, rfl, rfl⟩
+            · intro _
+              apply keeps_upd; intro s; exact ⟨SameLinks.refl _, rfl, rfl, rfl⟩
+        · apply keeps_upd; intro s; exact ⟨SameLinks.refl _, rfl, rfl, rfl⟩
+      · exact keeps_pure ()
+
+/-- `__register_stylename` as a function on states -/
+def registerPure (x : Id) (s : DState) : DState := ((registerStyle x).run s).1
 
 theorem registerStyle_run (x : Id) (s : DState) : (registerStyle x).run s = (registerPure x s, .ok ()) := by
-  unfold registerStyle registerPure
-  simp only [DomDoc.run_bind_rd]
-  cases hn : lookupAttr KEY_STYLE_NAME (s.heap x).attrs with
-  | none => rfl
-  | some name =>
-    simp only [DomDoc.run_bind_rd]
-    cases hp : (s.heap x).parent with
-    | none => rfl
-    | some pp =>
-      simp only [DomDoc.run_bind_rd]
-      by_cases hq : (s.heap pp).qn = QN_STYLES ∨ (s.heap pp).qn = QN_AUTOSTYLES
-      · by_cases hs : (sdGet s.sdict name).isSome
-        · simp [hq, hs]
-        · simp [hq, hs]
-      · simp [hq]
+  rcases h : (registerStyle x).run s with ⟨s', r⟩
+  obtain ⟨_, a, ha⟩ := registerStyle_keeps x s s' r h
+  subst ha
+  simp [registerPure, h]
 
 def registerIfPure (x : Id) (s : DState) : DState :=
   if (s.heap x).qn = QN_STYLE then registerPure x s else s
@@ -588,17 +641,8 @@ theorem foldRemove_ed : ∀ (l : List Id) (s : DState), (∀ q, (ed s q).Nodup) 
 
 theorem registerPure_view (x : Id) (s : DState) :
     SameLinks s.heap (registerPure x s).heap ∧ (registerPure x s).ownedL = s.ownedL ∧
-    (registerPure x s).top = s.top ∧ (registerPure x s).edict = s.edict := by
-  unfold registerPure
-  split
-  · exact ⟨SameLinks.refl _, rfl, rfl, rfl⟩
-  · split
-    · exact ⟨SameLinks.refl _, rfl, rfl, rfl⟩
-    · split
-      · split
-        · exact ⟨sameLinks_setAttrs _ _ _, rfl, rfl, rfl⟩
-        · exact ⟨SameLinks.refl _, rfl, rfl, rfl⟩
-      · exact ⟨SameLinks.refl _, rfl, rfl, rfl⟩
+    (registerPure x s).top = s.top ∧ (registerPure x s).edict = s.edict :=
+  (registerStyle_keeps x s _ _ (registerStyle_run x s)).1
 
 theorem fixRefPure_view (x : Id) (s : DState) :
     SameLinks s.heap (fixRefPure x s).heap ∧ (fixRefPure x s).ownedL = s.ownedL ∧
@@ -1523,9 +1567,44 @@ theorem docByType_good {q : Nat} {s s' : DState} {r : Except Err (List Id)} (hG 
   · simp only [he, if_false, DomDoc.run_bind_pure, DomDoc.run_rd, Bool.false_eq_true] at hrun
     cases hrun; exact hG
 
+/-- the part of `getStyleByName` after the optional rebuild: `__registered_style`, then the scan of the
+    style:style index list -/
+def lookupStyle (n : Nat) : DM (Option Id) := do
+  match (← registeredStyle n) with
+  | some e => pure (some e)
+  | none =>
+    match (← rdD fun s => scanStyles s n (edGet s.edict QN_STYLE)) with
+    | some e => do
+      updD fun s => { s with sdict := sdSet s.sdict n e }
+      pure (some e)
+    | none => pure none
+
+theorem styleByName_eq (n : Nat) : styleByName n = (do
+    if (← rdD fun s => s.sdict.isEmpty) then rebuildAll
+    lookupStyle n) := rfl
+
+theorem lookupStyle_keeps (n : Nat) : Keeps (lookupStyle n) := by
+  unfold lookupStyle
+  apply keeps_bind (registeredStyle_keeps n)
+  intro o
+  cases o with
+  | some e => exact keeps_pure _
+  | none =>
+    apply keeps_bind (keeps_rd _)
+    intro o2
+    cases o2 with
+    | none => exact keeps_pure _
+    | some e =>
+      apply keeps_bind
+      · apply keeps_upd; intro s; exact ⟨SameLinks.refl _, rfl, rfl, rfl⟩
+      · intro _; exact keeps_pure _
+
+theorem good_of_idxSame {s s' : DState} (hG : Good s) (h : IdxSame s s') : Good s' :=
+  good_of_sameLinks hG h.1 h.2.2.1 h.2.2.2 h.2.1
+
 theorem styleByName_good {n : Nat} {s s' : DState} {r : Except Err (Option Id)} (hG : Good s)
     (hrun : (styleByName n).run s = (s', r)) (hr : r ≠ .error .RecursionError) : Good s' := by
-  unfold styleByName at hrun
+  rw [styleByName_eq] at hrun
   simp only [DomDoc.run_bind_rd] at hrun
   by_cases he : s.sdict.isEmpty = true
   · simp only [he, if_true] at hrun
@@ -1537,10 +1616,10 @@ theorem styleByName_good {n : Nat} {s s' : DState} {r : Except Err (Option Id)} 
       simp only at hrun; cases hrun
       exact rebuildAll_good hG hb (by intro h; cases h; exact hr rfl)
     | ok u =>
-      simp only [DomDoc.run_rd] at hrun; cases hrun
-      exact rebuildAll_good hG hb (by intro h; cases h)
-  · simp only [he, if_false, DomDoc.run_bind_pure, DomDoc.run_rd, Bool.false_eq_true] at hrun
-    cases hrun; exact hG
+      simp only at hrun
+      exact good_of_idxSame (rebuildAll_good hG hb (by intro h; cases h)) (lookupStyle_keeps n _ _ _ hrun).1
+  · simp only [he, if_false, DomDoc.run_bind_pure, Bool.false_eq_true] at hrun
+    exact good_of_idxSame hG (lookupStyle_keeps n _ _ _ hrun).1
 
 /-- **C09 (document-level query)**: what `doc.getElementsByType(f)` returns has no repetition and
     consists exactly of the attached elements of that qname (the top node aside) -/
@@ -1912,8 +1991,8 @@ theorem coherent_runD (ops : List DOp) : ∀ s, Good s → HistoryOk s ops → G
 
 /-- **C09 (any history)**: from a fresh document, after an edit history of ANY length, the element
     index lists exactly the attached elements, each once, under its qname, and ownerDocument is
-    set exactly on the attached elements.  (`_partial`: the style dictionary is not covered — it is
-    not an invariant of the code, see `finding_style_rename`.) -/
+    set exactly on the attached elements.  (`_partial`: `HistoryOk` excludes calls that raised
+    RecursionError and the insertion of a node into itself or its own descendant.) -/
 theorem coherent_reachable_partial (q : Nat) (ops : List DOp) (hh : HistoryOk (freshDoc q) ops) :
     Good (runD (freshDoc q) ops) :=
   coherent_runD ops _ (good_fresh q) hh
@@ -2013,91 +2092,787 @@ theorem text_node_append_keeps_index {p c : Id} {s s' : DState} {r : Except Err 
   cases hrun
   exact ⟨rfl, rfl, rfl, rfl⟩
 
-/-! ### the style dictionary: statement, the two findings, what is proved -/
+/-! ### looking a style up by name -/
 
-/-- a style:style element that is attached, under office:styles or office:automatic-styles -/
-def RegisteredStyle (s : DState) (e : Id) : Prop :=
-  Att s e ∧ (s.heap e).kind = .elem ∧ (s.heap e).qn = QN_STYLE ∧
-  ∃ pp, (s.heap e).parent = some pp ∧ ((s.heap pp).qn = QN_STYLES ∨ (s.heap pp).qn = QN_AUTOSTYLES)
+/-- a style of name `n` currently in the document: an attached style:style element under
+    office:styles or office:automatic-styles whose style:name is `n` NOW -/
+def Cand (s : DState) (n : Nat) (e : Id) : Prop :=
+  Att s e ∧ (s.heap e).kind = .elem ∧ (s.heap e).qn = QN_STYLE ∧ underStyles s e = true ∧
+  lookupAttr KEY_STYLE_NAME (s.heap e).attrs = some n
 
-/-- **the property for name lookups, at full strength**: `getStyleByName(n)` answers `e` exactly
-    when `e` is a style of that name currently in the document.  NOT preserved by every history of
-    the code as it is: see `finding_style_rename` and `finding_style_duplicate_name` (known findings
-    KF-C09-1, KF-C09-2); over histories it is checked by correspondence and oracle only. -/
-def CohStyles (s : DState) : Prop :=
-  ∀ n e, sdGet s.sdict n = some e ↔ RegisteredStyle s e ∧ lookupAttr KEY_STYLE_NAME (s.heap e).attrs = some n
+theorem scanStyles_some {s : DState} {n : Nat} : ∀ {l : List Id} {e : Id}, scanStyles s n l = some e →
+    ∃ l1 l2, l = l1 ++ e :: l2 ∧
+      (lookupAttr KEY_STYLE_NAME (s.heap e).attrs = some n ∧ underStyles s e = true) ∧
+      ∀ y ∈ l1, ¬ (lookupAttr KEY_STYLE_NAME (s.heap y).attrs = some n ∧ underStyles s y = true) := by
+  intro l
+  induction l with
+  | nil => intro e h; simp [scanStyles] at h
+  | cons a r ih =>
+    intro e h
+    unfold scanStyles at h
+    by_cases hc : (decide (lookupAttr KEY_STYLE_NAME (s.heap a).attrs = some n) && underStyles s a) = true
+    · simp only [hc, if_true] at h
+      cases h
+      refine ⟨[], r, rfl, by simpa using hc, by intro y hy; cases hy⟩
+    · simp only [hc, if_false, Bool.false_eq_true] at h
+      obtain ⟨l1, l2, hl, hce, hfirst⟩ := ih h
+      refine ⟨a :: l1, l2, by rw [hl]; rfl, hce, ?_⟩
+      intro y hy
+      rcases List.mem_cons.mp hy with e1 | hy
+      · subst e1; simpa using hc
+      · exact hfirst y hy
 
-/-- document 0 with office:styles 1 (attached) and a style 2 named 7 under it -/
-def docWithStyle : DState :=
-  runD (freshDoc 9) [.tree (.newNode 1 .elem QN_STYLES), .tree (.append 0 1), .tree (.newNode 2 .elem QN_STYLE),
-    .tree (.setAttrNS 2 KEY_STYLE_NAME (.ok 7)), .tree (.append 1 2)]
+theorem scanStyles_none {s : DState} {n : Nat} : ∀ {l : List Id}, scanStyles s n l = none →
+    ∀ y ∈ l, ¬ (lookupAttr KEY_STYLE_NAME (s.heap y).attrs = some n ∧ underStyles s y = true) := by
+  intro l
+  induction l with
+  | nil => intro _ y hy; cases hy
+  | cons a r ih =>
+    intro h y hy
+    unfold scanStyles at h
+    by_cases hc : (decide (lookupAttr KEY_STYLE_NAME (s.heap a).attrs = some n) && underStyles s a) = true
+    · simp [hc] at h
+    · simp only [hc, if_false, Bool.false_eq_true] at h
+      rcases List.mem_cons.mp hy with e1 | hy
+      · subst e1; simpa using hc
+      · exact ih h y hy
 
-example : sdGet docWithStyle.sdict 7 = some 2 := by decide +kernel
-example : edGet docWithStyle.edict QN_STYLE = [2] := by decide
+theorem underStyles_parent {s : DState} {e : Id} (h : underStyles s e = true) : (s.heap e).parent ≠ none := by
+  unfold underStyles at h
+  intro hp; rw [hp] at h; cases h
 
-/-- **finding KF-C09-1 (`style-rename`)**, on the model that is in lock-step with the code: after
-    `style.setAttrNS(style:name, 8)` on the attached style, the name it now bears finds nothing, its
-    old name still finds it — and still does after the style was removed from the document -/
-theorem finding_style_rename :
-    let s1 := runD docWithStyle [.tree (.setAttrNS 2 KEY_STYLE_NAME (.ok 8))]
-    let s2 := runD s1 [.tree (.remove 1 2)]
-    lookupAttr KEY_STYLE_NAME (s1.heap 2).attrs = some 8 ∧ sdGet s1.sdict 8 = none ∧ sdGet s1.sdict 7 = some 2 ∧
-    (s2.heap 2).parent = none ∧ sdGet s2.sdict 7 = some 2 := by
-  decide
+/-- the members of the style:style index list are exactly the attached style elements that have a parent -/
+theorem cand_iff_listed {s : DState} (hC : CohIdx s) (n : Nat) (e : Id) :
+    Cand s n e ↔ e ∈ ed s QN_STYLE ∧ lookupAttr KEY_STYLE_NAME (s.heap e).attrs = some n ∧ underStyles s e = true := by
+  constructor
+  · rintro ⟨ha, hk, hq, hu, hn⟩
+    have het : e ≠ s.top := by
+      intro h; apply underStyles_parent hu; rw [h]; exact hC.top_root
+    exact ⟨(hC.mem_iff QN_STYLE e het).mpr ⟨ha, hk, hq⟩, hn, hu⟩
+  · rintro ⟨hm, hn, hu⟩
+    have het : e ≠ s.top := by
+      intro h; apply underStyles_parent hu; rw [h]; exact hC.top_root
+    obtain ⟨ha, hk, hq⟩ := (hC.mem_iff QN_STYLE e het).mp hm
+    exact ⟨ha, hk, hq, hu, hn⟩
 
-/-- so the full-strength statement fails after a rename of a registered style -/
-theorem finding_style_rename_breaks_CohStyles :
-    ¬ CohStyles (runD docWithStyle [.tree (.setAttrNS 2 KEY_STYLE_NAME (.ok 8))]) := by
-  intro h
-  have h1 := (h 7 2).mp (by decide)
-  have h2 : lookupAttr KEY_STYLE_NAME
-      ((runD docWithStyle [.tree (.setAttrNS 2 KEY_STYLE_NAME (.ok 8))]).heap 2).attrs = some 8 := by decide
-  rw [h2] at h1
-  exact absurd h1.2 (by decide)
+/-- what is read off the state by `Cand` is untouched by changes of the style dictionary alone -/
+theorem cand_of_same {s s' : DState} (hh : s'.heap = s.heap) (ht : s'.top = s.top) (n : Nat) (e : Id) :
+    Cand s' n e ↔ Cand s n e := by
+  unfold Cand Att underStyles; rw [hh, ht]
 
-/-- **finding KF-C09-2 (`style-duplicate-name`)**: styles named 'MA' (token 1007), 'A' (7), then a
-    second 'A': the rename-on-collision gives it 'MA' and the dictionary entry of the first 'MA'
-    style; removing it leaves the lookup of 'MA' empty although style 2 is still there -/
-theorem finding_style_duplicate_name :
-    let s := runD (freshDoc 9) [.tree (.newNode 1 .elem QN_STYLES), .tree (.append 0 1),
-      .tree (.newNode 2 .elem QN_STYLE), .tree (.setAttrNS 2 KEY_STYLE_NAME (.ok (mName 7))), .tree (.append 1 2),
-      .tree (.newNode 3 .elem QN_STYLE), .tree (.setAttrNS 3 KEY_STYLE_NAME (.ok 7)), .tree (.append 1 3),
-      .tree (.newNode 4 .elem QN_STYLE), .tree (.setAttrNS 4 KEY_STYLE_NAME (.ok 7)), .tree (.append 1 4)]
-    let s' := runD s [.tree (.remove 1 4)]
-    lookupAttr KEY_STYLE_NAME (s.heap 4).attrs = some (mName 7) ∧ sdGet s.sdict (mName 7) = some 4 ∧
-    (s'.heap 1).kids = [2, 3] ∧ lookupAttr KEY_STYLE_NAME (s'.heap 2).attrs = some (mName 7) ∧
-    sdGet s'.sdict (mName 7) = none := by
-  decide
+/-- every entry of the style dictionary is a style:style element (it may be stale in every other respect) -/
+def SdQ (s : DState) : Prop := ∀ p ∈ s.sdict, (s.heap p.2).qn = QN_STYLE
 
-/-- registering a style under a name that is free: that name now finds it, other names are as before
-    (`_partial`: a single registration, not a history) -/
-theorem styles_register_partial {s : DState} {x pp : Id} {n : Nat}
-    (hn : lookupAttr KEY_STYLE_NAME (s.heap x).attrs = some n) (hp : (s.heap x).parent = some pp)
-    (hq : (s.heap pp).qn = QN_STYLES ∨ (s.heap pp).qn = QN_AUTOSTYLES) (hfree : sdGet s.sdict n = none) :
-    sdGet (registerPure x s).sdict n = some x ∧ ∀ m, m ≠ n → sdGet (registerPure x s).sdict m = sdGet s.sdict m := by
-  have key : ∀ (d : List (Nat × Id)) (a b : Nat) (v : Id),
-      sdGet (sdSet d a v) b = if b = a then some v else sdGet d b := by
-    intro d a b v
-    induction d with
-    | nil =>
-      by_cases h : b = a
-      · subst h; simp [sdSet, sdGet]
-      · simp [sdSet, sdGet, h, Ne.symm h]
-    | cons c r ih =>
-      obtain ⟨k, w⟩ := c
-      simp only [sdSet]
-      by_cases hk : k = a
-      · subst hk
-        by_cases h : b = k
-        · subst h; simp [sdGet]
-        · simp [sdGet, h, Ne.symm h]
-      · simp only [hk, if_false, sdGet, ih]
-        by_cases h2 : k = b
-        · subst h2; simp [hk]
-        · simp [h2]
-  unfold registerPure
-  simp only [hn, hp, hq, if_true, hfree, Option.isSome_none, Bool.false_eq_true, if_false]
-  refine ⟨by rw [key]; simp, fun m hm => by rw [key]; simp [hm]⟩
+theorem sdGet_mem {d : List (Nat × Id)} {n : Nat} {e : Id} (h : sdGet d n = some e) : (n, e) ∈ d := by
+  induction d with
+  | nil => simp [sdGet] at h
+  | cons c r ih =>
+    obtain ⟨k, w⟩ := c
+    simp only [sdGet] at h
+    by_cases hk : k = n
+    · simp only [hk, if_true] at h; cases h; subst hk; simp
+    · simp only [hk, if_false] at h; exact List.mem_cons_of_mem _ (ih h)
+
+/-- **C09 (name lookup)**: `getStyleByName(n)` (after its optional index rebuild, `styleByName_eq`)
+    * changes nothing but the style dictionary — tree, attributes, element index, owners are untouched;
+    * answers nothing exactly when no style of that name is in the document, and otherwise answers a
+      style of that name that is in the document NOW (attached, under office:styles or
+      office:automatic-styles, bearing the name) — whatever the dictionary held: stale entries (renamed,
+      removed, moved, replaced styles) are dropped and never shown.  Two attached styles may bear the
+      same name (a user rename, or the 'M'+name of a second clash); either is a correct answer. -/
+theorem lookupStyle_spec {n : Nat} {s s' : DState} {r : Option Id} (hG : Good s) (hQ : SdQ s)
+    (hrun : (lookupStyle n).run s = (s', .ok r)) :
+    (s'.heap = s.heap ∧ s'.edict = s.edict ∧ s'.ownedL = s.ownedL ∧ s'.top = s.top ∧ s'.fix = s.fix) ∧
+    (r = none ↔ ∀ e, ¬ Cand s n e) ∧ (∀ e, r = some e → Cand s n e) := by
+  have hhit : ∀ e, sdGet s.sdict n = some e → s.owned e = true →
+      lookupAttr KEY_STYLE_NAME (s.heap e).attrs = some n → underStyles s e = true → Cand s n e := by
+    intro e hsd ho hn hu
+    have hk : (s.heap e).kind = .elem := by
+      by_cases hk : (s.heap e).kind = .elem
+      · exact hk
+      · rw [hG.2.2.text_unowned e hk] at ho; cases ho
+    exact ⟨(hG.2.2.owned_iff e hk).mp ho, hk, hQ (n, e) (sdGet_mem hsd), hu, hn⟩
+  have hC := hG.2.2
+  -- the scan, on any state with the same heap and element index
+  have hscan : ∀ (s2 : DState), s2.heap = s.heap → s2.edict = s.edict → s2.top = s.top →
+      ∀ o, scanStyles s2 n (edGet s2.edict QN_STYLE) = o →
+        (o = none ↔ ∀ e, ¬ Cand s n e) ∧ (∀ e, o = some e → Cand s n e) := by
+    intro s2 hh he ht o ho
+    have hsc : scanStyles s2 n (edGet s2.edict QN_STYLE) = scanStyles s n (ed s QN_STYLE) := by
+      unfold ed; rw [he]
+      have : ∀ l, scanStyles s2 n l = scanStyles s n l := by
+        intro l; induction l with
+        | nil => rfl
+        | cons a r ih => unfold scanStyles underStyles; rw [hh, ih]
+      exact this _
+    rw [hsc] at ho
+    cases o with
+    | none =>
+      refine ⟨⟨fun _ e hc => ?_, fun _ => rfl⟩, fun e h => by cases h⟩
+      obtain ⟨hm, hn, hu⟩ := (cand_iff_listed hC n e).mp hc
+      exact scanStyles_none ho e hm ⟨hn, hu⟩
+    | some e0 =>
+      obtain ⟨l1, l2, hl, ⟨hn, hu⟩, _⟩ := scanStyles_some ho
+      have hc0 : Cand s n e0 := (cand_iff_listed hC n e0).mpr ⟨by rw [hl]; simp, hn, hu⟩
+      refine ⟨⟨(fun h => by cases h), (fun h => absurd hc0 (h e0))⟩, (fun e h => by cases h; exact hc0)⟩
+  unfold lookupStyle at hrun
+  rw [DomDoc.run_bind] at hrun
+  unfold registeredStyle at hrun
+  simp only [DM.run] at hrun
+  cases hsd : sdGet s.sdict n with
+  | none =>
+    simp only [hsd, DomDoc.run_bind_rd] at hrun
+    change (match scanStyles s n (edGet s.edict QN_STYLE) with
+      | some e => (do updD fun s => { s with sdict := sdSet s.sdict n e }; pure (some e) : DM (Option Id))
+      | none => pure none).run s = _ at hrun
+    cases hsc : scanStyles s n (edGet s.edict QN_STYLE) with
+    | none =>
+      rw [hsc] at hrun; cases hrun
+      exact ⟨⟨rfl, rfl, rfl, rfl, rfl⟩, hscan s rfl rfl rfl none hsc⟩
+    | some e0 =>
+      rw [hsc] at hrun; cases hrun
+      exact ⟨⟨rfl, rfl, rfl, rfl, rfl⟩, hscan s rfl rfl rfl (some e0) hsc⟩
+  | some x =>
+    simp only [hsd] at hrun
+    by_cases hv : (s.owned x && (lookupAttr KEY_STYLE_NAME (s.heap x).attrs == some n) && underStyles s x) = true
+    · simp only [hv, if_true] at hrun
+      cases hrun
+      have hv' : (s.owned x = true ∧ lookupAttr KEY_STYLE_NAME (s.heap x).attrs = some n) ∧ underStyles s x = true := by
+        simpa using hv
+      have hcx := hhit x hsd hv'.1.1 hv'.1.2 hv'.2
+      exact ⟨⟨rfl, rfl, rfl, rfl, rfl⟩, ⟨(fun h => by cases h), (fun h => absurd hcx (h x))⟩, (fun e h => by cases h; exact hcx)⟩
+    · simp only [hv, if_false, Bool.false_eq_true] at hrun
+      change (match scanStyles _ n (edGet s.edict QN_STYLE) with
+        | some e => (do updD fun s => { s with sdict := sdSet s.sdict n e }; pure (some e) : DM (Option Id))
+        | none => pure none).run ({ s with sdict := sdDel s.sdict n } : DState) = _ at hrun
+      cases hsc : scanStyles ({ s with sdict := sdDel s.sdict n } : DState) n (edGet s.edict QN_STYLE) with
+      | none =>
+        rw [hsc] at hrun; cases hrun
+        exact ⟨⟨rfl, rfl, rfl, rfl, rfl⟩, hscan ({ s with sdict := sdDel s.sdict n } : DState) rfl rfl rfl none hsc⟩
+      | some e0 =>
+        rw [hsc] at hrun; cases hrun
+        exact ⟨⟨rfl, rfl, rfl, rfl, rfl⟩, hscan ({ s with sdict := sdDel s.sdict n } : DState) rfl rfl rfl (some e0) hsc⟩
+
+/-! ### every entry of the style dictionary is a style:style element, in every reachable state -/
+
+/-- qnames are unchanged, and every entry of the dictionary afterwards was there before or is a style:style -/
+def Rq (s s' : DState) : Prop :=
+  (∀ y, (s'.heap y).qn = (s.heap y).qn) ∧
+  ∀ p ∈ s'.sdict, p ∈ s.sdict ∨ (s.heap p.2).qn = QN_STYLE
+
+theorem Rq.refl (s : DState) : Rq s s := ⟨fun _ => rfl, fun _ h => Or.inl h⟩
+theorem Rq.trans {a b c : DState} (h1 : Rq a b) (h2 : Rq b c) : Rq a c := by
+  refine ⟨fun y => (h2.1 y).trans (h1.1 y), fun p h => ?_⟩
+  rcases h2.2 p h with h | h
+  · exact h1.2 p h
+  · rw [h1.1 p.2] at h; exact Or.inr h
+theorem Rq.of_same {s s' : DState} (hh : s'.heap = s.heap) (hd : s'.sdict = s.sdict) : Rq s s' :=
+  ⟨fun y => by rw [hh], fun p h => by rw [hd] at h; exact Or.inl h⟩
+
+theorem sdq_of_Rq {s s' : DState} (hQ : SdQ s) (h : Rq s s') : SdQ s' := by
+  intro p hp
+  rw [h.1 p.2]
+  rcases h.2 p hp with h1 | h1
+  · exact hQ p h1
+  · exact h1
+
+theorem mem_sdDel {d : List (Nat × Id)} {n : Nat} {p : Nat × Id} (h : p ∈ sdDel d n) : p ∈ d := by
+  induction d with
+  | nil => simp [sdDel] at h
+  | cons c r ih =>
+    obtain ⟨k, w⟩ := c
+    simp only [sdDel] at h
+    by_cases hk : k = n
+    · simp only [hk, if_true] at h; exact List.mem_cons_of_mem _ h
+    · simp only [hk, if_false] at h
+      rcases List.mem_cons.mp h with e | h
+      · rw [e]; simp
+      · exact List.mem_cons_of_mem _ (ih h)
+
+theorem mem_sdSet {d : List (Nat × Id)} {n : Nat} {v : Id} {p : Nat × Id} (h : p ∈ sdSet d n v) :
+    p ∈ d ∨ p = (n, v) := by
+  induction d with
+  | nil => simp [sdSet] at h; exact Or.inr h
+  | cons c r ih =>
+    obtain ⟨k, w⟩ := c
+    simp only [sdSet] at h
+    by_cases hk : k = n
+    · simp only [hk, if_true] at h
+      rcases List.mem_cons.mp h with e | h
+      · exact Or.inr e
+      · exact Or.inl (List.mem_cons_of_mem _ h)
+    · simp only [hk, if_false] at h
+      rcases List.mem_cons.mp h with e | h
+      · rw [e]; exact Or.inl (by simp)
+      · rcases ih h with h1 | h1
+        · exact Or.inl (List.mem_cons_of_mem _ h1)
+        · exact Or.inr h1
+
+/-- a predicate on states that only looks at qnames -/
+def QnOnly (P : DState → Prop) : Prop := ∀ s s', (∀ y, (s'.heap y).qn = (s.heap y).qn) → P s → P s'
+
+/-- under `P`, the statement sequence relates its start and end states by `Rq` and keeps `P` -/
+def Grow (P : DState → Prop) {α : Type} (m : DM α) : Prop :=
+  ∀ s s' r, P s → m.run s = (s', r) → Rq s s' ∧ P s'
+
+theorem grow_pure (P : DState → Prop) {α : Type} (a : α) : Grow P (pure a : DM α) := by
+  intro s s' r hP h; cases h; exact ⟨Rq.refl s, hP⟩
+theorem grow_raise (P : DState → Prop) {α : Type} (e : Err) : Grow P (raiseD e : DM α) := by
+  intro s s' r hP h; cases h; exact ⟨Rq.refl s, hP⟩
+theorem grow_raise_bind (P : DState → Prop) {α β : Type} (e : Err) (k : α → DM β) :
+    Grow P ((raiseD e : DM α) >>= k) := by
+  intro s s' r hP h
+  rw [DomDoc.run_bind_raise] at h; cases h; exact ⟨Rq.refl s, hP⟩
+theorem grow_rd (P : DState → Prop) {α : Type} (f : DState → α) : Grow P (rdD f) := by
+  intro s s' r hP h; cases h; exact ⟨Rq.refl s, hP⟩
+theorem grow_upd {P : DState → Prop} (hQ : QnOnly P) (f : DState → DState) (hf : ∀ s, P s → Rq s (f s)) :
+    Grow P (updD f) := by
+  intro s s' r hP h; cases h; exact ⟨hf s hP, hQ s _ (hf s hP).1 hP⟩
+theorem grow_bind {P : DState → Prop} {α β : Type} {m : DM α} {k : α → DM β} (hm : Grow P m)
+    (hk : ∀ a, Grow P (k a)) : Grow P (m >>= k) := by
+  intro s s' r hP h
+  rw [DomDoc.run_bind] at h
+  rcases hx : m.run s with ⟨s1, r1⟩
+  rw [hx] at h
+  obtain ⟨h1, hP1⟩ := hm s s1 r1 hP hx
+  cases r1 with
+  | error e => simp only at h; cases h; exact ⟨h1, hP1⟩
+  | ok a =>
+    simp only at h
+    obtain ⟨h2, hP2⟩ := hk a s1 s' r hP1 h
+    exact ⟨Rq.trans h1 h2, hP2⟩
+theorem grow_ite {P : DState → Prop} {α : Type} (c : Prop) [Decidable c] {a b : DM α} (ha : Grow P a)
+    (hb : Grow P b) : Grow P (if c then a else b) := by
+  split
+  · exact ha
+  · exact hb
+theorem grow_forEach {P : DState → Prop} {f : Id → DM Unit} (hf : ∀ x, Grow P (f x)) :
+    ∀ l, Grow P (forEach f l) := by
+  intro l
+  induction l with
+  | nil => exact grow_pure P ()
+  | cons x r ih => unfold forEach; exact grow_bind (hf x) (fun _ => ih)
+theorem grow_liftH {P : DState → Prop} (hQ : QnOnly P) {α : Type} (m : M α)
+    (hq : ∀ h y, ((m.run h).1 y).qn = (h y).qn) : Grow P (liftH m) := by
+  intro s s' r hP h
+  rw [run_liftH] at h; cases h
+  have : Rq s { s with heap := (m.run s.heap).1 } := ⟨fun y => hq s.heap y, fun p h => Or.inl h⟩
+  exact ⟨this, hQ s _ this.1 hP⟩
+theorem grow_weaken {P : DState → Prop} {α : Type} {m : DM α} (h : Grow (fun _ => True) m) (hQ : QnOnly P) :
+    Grow P m := by
+  intro s s' r hP hrun
+  obtain ⟨h1, _⟩ := h s s' r trivial hrun
+  exact ⟨h1, hQ s s' h1.1 hP⟩
+
+theorem qnOnly_true : QnOnly (fun _ => True) := fun _ _ _ _ => trivial
+theorem qnOnly_qn (x : Id) (q : Nat) : QnOnly (fun s => (s.heap x).qn = q) := by
+  intro s s' h hp
+  show (s'.heap x).qn = q
+  rw [h x]; exact hp
+
+abbrev PT : DState → Prop := fun _ => True
+
+theorem grow_walk (n : Id) : Grow PT (walk n) := by
+  intro s s' r _ h
+  rw [walk_run] at h; unfold walkResult at h
+  split at h <;> (cases h; exact ⟨Rq.refl _, trivial⟩)
+
+theorem grow_setOwnerRec (n : Id) (v : Bool) : Grow PT (setOwnerRec n v) := by
+  unfold setOwnerRec
+  apply grow_bind (grow_walk n)
+  intro l
+  apply grow_forEach
+  intro x
+  apply grow_upd qnOnly_true; intro s _; exact Rq.of_same rfl rfl
+
+theorem grow_dropStyleEntry (x : Id) : Grow PT (dropStyleEntry x) := by
+  unfold dropStyleEntry
+  apply grow_bind (grow_rd _ _)
+  intro q
+  apply grow_ite
+  · apply grow_bind (grow_rd _ _)
+    intro o
+    cases o with
+    | none => exact grow_pure _ _
+    | some name =>
+      apply grow_bind (grow_rd _ _)
+      intro cur
+      apply grow_ite
+      · apply grow_upd qnOnly_true; intro s _; exact ⟨fun _ => rfl, fun p hp => Or.inl (mem_sdDel hp)⟩
+      · exact grow_pure _ _
+  · exact grow_pure _ _
+
+theorem edDrop_Rq (x : Id) (s : DState) : Rq s (edDrop x s) := by
+  obtain ⟨a, _, _, b, _⟩ := edDrop_same x s
+  exact Rq.of_same a b
+
+theorem grow_removeFromCaches (n : Id) : Grow PT (removeFromCaches n) := by
+  unfold removeFromCaches
+  apply grow_bind (grow_walk n)
+  intro l
+  apply grow_forEach
+  intro x
+  unfold removeOne
+  apply grow_bind
+  · apply grow_upd qnOnly_true; intro s _; exact edDrop_Rq x s
+  intro _
+  exact grow_dropStyleEntry x
+
+theorem grow_registeredStyle {P : DState → Prop} (hQ : QnOnly P) (n : Nat) : Grow P (registeredStyle n) := by
+  intro s s' r hP h
+  unfold registeredStyle DM.run at h
+  dsimp only at h
+  split at h
+  · cases h; exact ⟨Rq.refl s, hP⟩
+  · split at h
+    · cases h; exact ⟨Rq.refl s, hP⟩
+    · cases h
+      have : Rq s { s with sdict := sdDel s.sdict n } := ⟨fun _ => rfl, fun p hp => Or.inl (mem_sdDel hp)⟩
+      exact ⟨this, hQ s _ this.1 hP⟩
+
+/-- under "x is a style:style" -/
+theorem grow_registerStyle (x : Id) : Grow (fun s => (s.heap x).qn = QN_STYLE) (registerStyle x) := by
+  have hQ := qnOnly_qn x QN_STYLE
+  have hset : ∀ (nm : Nat) (s : DState), (s.heap x).qn = QN_STYLE → Rq s { s with sdict := sdSet s.sdict nm x } := by
+    intro nm s hq
+    refine ⟨fun _ => rfl, fun p hp => ?_⟩
+    rcases mem_sdSet hp with h | h
+    · exact Or.inl h
+    · rw [h]; exact Or.inr hq
+  unfold registerStyle
+  apply grow_bind (grow_rd _ _)
+  intro on
+  cases on with
+  | none => exact grow_pure _ _
+  | some name =>
+    apply grow_bind (grow_rd _ _)
+    intro op
+    cases op with
+    | none => exact grow_pure _ _
+    | some pp =>
+      apply grow_bind (grow_rd _ _)
+      intro pq
+      apply grow_ite
+      · apply grow_bind (grow_registeredStyle hQ name)
+        intro cur
+        apply grow_ite
+        · apply grow_bind
+          · apply grow_upd hQ; intro s _; exact Rq.of_same rfl rfl
+          · intro _
+            apply grow_bind
+            · apply grow_upd hQ; intro s _; exact ⟨fun y => by simp, fun p hp => Or.inl hp⟩
+            · intro _
+              apply grow_upd hQ; intro s hq; exact hset _ s hq
+        · apply grow_upd hQ; intro s hq; exact hset _ s hq
+      · exact grow_pure _ _
+
+theorem grow_registerIfStyle (x : Id) : Grow PT (registerIfStyle x) := by
+  intro s s' r _ h
+  unfold registerIfStyle at h
+  simp only [DomDoc.run_bind_rd] at h
+  by_cases hq : (s.heap x).qn = QN_STYLE
+  · simp only [hq, if_true] at h
+    exact ⟨(grow_registerStyle x s s' r hq h).1, trivial⟩
+  · simp only [hq, if_false, DomDoc.run_pure] at h
+    cases h; exact ⟨Rq.refl _, trivial⟩
+
+theorem grow_fixStyleRef (x : Id) : Grow PT (fixStyleRef x) := by
+  unfold fixStyleRef
+  apply grow_bind (grow_rd _ _)
+  intro o
+  cases o with
+  | none => exact grow_pure _ _
+  | some r =>
+    apply grow_bind (grow_rd _ _)
+    intro o2
+    cases o2 with
+    | none => exact grow_pure _ _
+    | some nw => apply grow_upd qnOnly_true; intro s _; exact ⟨fun y => by simp, fun p hp => Or.inl hp⟩
+
+theorem grow_rebuildCaches (n : Id) : Grow PT (rebuildCaches n) := by
+  unfold rebuildCaches
+  apply grow_bind (grow_walk n)
+  intro l
+  apply grow_forEach
+  intro x
+  unfold buildCaches
+  apply grow_bind
+  · apply grow_upd qnOnly_true; intro s _; exact Rq.of_same rfl rfl
+  intro _
+  apply grow_bind (grow_registerIfStyle x)
+  intro _
+  exact grow_fixStyleRef x
+
+theorem grow_rebuildAll : Grow PT rebuildAll := by
+  unfold rebuildAll
+  apply grow_bind
+  · apply grow_upd qnOnly_true; intro s _; exact ⟨fun _ => rfl, fun p hp => by cases hp⟩
+  intro _
+  apply grow_bind (grow_rd _ _)
+  intro t
+  exact grow_rebuildCaches t
+
+theorem appRaw_qn (h : Heap) (p c y : Id) : (appRawHeap h p c y).qn = (h y).qn := by
+  unfold appRawHeap; cases (h p).kids.getLast? <;> simp
+
+theorem grow_removeChild (p c : Id) : Grow PT (DomDoc.removeChild p c) := by
+  unfold DomDoc.removeChild
+  apply grow_bind (grow_rd _ _); intro k
+  try dsimp only
+  apply grow_ite _ (grow_raise_bind _ _ _)
+  apply grow_bind (grow_rd _ _); intro b
+  try dsimp only
+  apply grow_ite _ (grow_raise_bind _ _ _)
+  apply grow_bind (grow_liftH qnOnly_true _ (fun h y => by rw [unlink_run]; exact (rm5_fields h p c y).2.2)); intro _
+  apply grow_bind
+  · unfold dropFromIndexes
+    apply grow_bind (grow_rd _ _); intro d
+    dsimp only
+    apply grow_ite
+    · exact grow_bind (grow_removeFromCaches c) (fun _ => grow_setOwnerRec c false)
+    · exact grow_setOwnerRec c false
+  · intro _
+    exact grow_liftH qnOnly_true _ (fun h y => by simp [Dom.run_upd])
+
+theorem grow_detach (c : Id) : Grow PT (DomDoc.detachIfAttached c) := by
+  unfold DomDoc.detachIfAttached
+  apply grow_bind (grow_rd _ _); intro o
+  cases o with
+  | none => exact grow_pure _ _
+  | some q => exact grow_removeChild q c
+
+theorem grow_childAttached (p c : Id) : Grow PT (childAttached p c) := by
+  unfold childAttached
+  apply grow_bind (grow_rd _ _); intro doc
+  apply grow_bind (grow_setOwnerRec c doc); intro _
+  apply grow_bind (grow_rd _ _); intro b
+  try dsimp only
+  apply grow_ite
+  · first | exact grow_rebuildCaches c | exact grow_bind (grow_rebuildCaches c) (fun _ => grow_pure _ _)
+  · exact grow_pure _ _
+
+theorem grow_appendChild (p c : Id) : Grow PT (DomDoc.appendChild p c) := by
+  unfold DomDoc.appendChild
+  apply grow_bind (grow_rd _ _); intro k
+  try dsimp only
+  apply grow_ite _ (grow_raise_bind _ _ _)
+  apply grow_bind (grow_detach c); intro _
+  apply grow_bind (grow_liftH qnOnly_true _ (fun h y => by rw [appendRaw_run]; exact appRaw_qn h p c y)); intro _
+  apply grow_bind (grow_liftH qnOnly_true _ (fun h y => by simp [Dom.run_upd])); intro _
+  exact grow_childAttached p c
+
+theorem grow_insertBefore (p n : Id) (ref : Option Id) : Grow PT (DomDoc.insertBefore p n ref) := by
+  unfold DomDoc.insertBefore
+  apply grow_bind (grow_rd _ _); intro k
+  try dsimp only
+  apply grow_ite _ (grow_raise_bind _ _ _)
+  apply grow_bind (grow_liftH qnOnly_true _ (fun h y => by rw [checkRef_run]; split <;> rfl)); intro _
+  apply grow_ite
+  · exact grow_pure _ _
+  · apply grow_bind (grow_detach n); intro _
+    cases ref with
+    | none => exact grow_appendChild p n
+    | some r =>
+      apply grow_bind (grow_liftH qnOnly_true _ (fun h y => by
+        rw [insertAtRef_run]; split
+        · exact insHeap_qn h p n r y
+        · rfl))
+      intro _
+      exact grow_childAttached p n
+
+theorem grow_addElement (p c : Id) (a : Bool) : Grow PT (DomDoc.addElement p c a) := by
+  unfold DomDoc.addElement
+  try dsimp only
+  apply grow_ite _ (grow_raise_bind _ _ _)
+  exact grow_appendChild p c
+
+/-- no entry of the style dictionary refers to `i` -/
+def NotInSd (s : DState) (i : Id) : Prop := ∀ p ∈ s.sdict, p.2 ≠ i
+
+theorem sdq_initNode {s : DState} (hQ : SdQ s) {i : Id} (hn : NotInSd s i) (k : Kind) (qn : Nat) :
+    SdQ { s with heap := s.heap.set i { kind := k, qn := qn } } := by
+  intro p hp
+  show ((s.heap.set i { kind := k, qn := qn }) p.2).qn = QN_STYLE
+  rw [Heap.set_other _ _ _ _ (hn p hp)]; exact hQ p hp
+
+theorem sdq_grow {α : Type} {m : DM α} (hm : Grow PT m) {s s' : DState} {r : Except Err α} (hQ : SdQ s)
+    (hrun : m.run s = (s', r)) : SdQ s' := sdq_of_Rq hQ (hm s s' r trivial hrun).1
+
+theorem sdq_addText {p t : Id} {a ne : Bool} {s s' : DState} {r : Except Err Unit} (hQ : SdQ s) (hn : NotInSd s t)
+    (hrun : (DomDoc.addText p t a ne).run s = (s', r)) : SdQ s' := by
+  unfold DomDoc.addText at hrun
+  cases a with
+  | false => simp at hrun; rw [← hrun.1]; exact hQ
+  | true =>
+    cases ne with
+    | false => simp at hrun; rw [← hrun.1]; exact hQ
+    | true =>
+      simp only [Bool.not_true, Bool.false_eq_true, if_false, if_true] at hrun
+      rw [run_bind_liftH, initNode_run] at hrun
+      exact sdq_grow (grow_appendChild p t) (sdq_initNode hQ hn .text 0) hrun
+
+theorem sdq_addCDATA {p t : Id} {a : Bool} {s s' : DState} {r : Except Err Unit} (hQ : SdQ s) (hn : NotInSd s t)
+    (hrun : (DomDoc.addCDATA p t a).run s = (s', r)) : SdQ s' := by
+  unfold DomDoc.addCDATA at hrun
+  cases a with
+  | false => simp at hrun; rw [← hrun.1]; exact hQ
+  | true =>
+    simp only [Bool.not_true, Bool.false_eq_true, if_false] at hrun
+    rw [run_bind_liftH, initNode_run] at hrun
+    exact sdq_grow (grow_appendChild p t) (sdq_initNode hQ hn .cdata 0) hrun
+
+/-- the lookup proper keeps the dictionary well-formed: what the scan registers comes from the style:style index -/
+theorem sdq_lookupStyle {n : Nat} {s s' : DState} {r : Except Err (Option Id)} (hG : Good s) (hQ : SdQ s)
+    (hrun : (lookupStyle n).run s = (s', r)) : SdQ s' := by
+  have hC := hG.2.2
+  have hscanq : ∀ (s2 : DState), s2.heap = s.heap → s2.edict = s.edict → ∀ e,
+      scanStyles s2 n (edGet s2.edict QN_STYLE) = some e → (s.heap e).qn = QN_STYLE := by
+    intro s2 hh he e hsc
+    obtain ⟨l1, l2, hl, ⟨_, hu⟩, _⟩ := scanStyles_some hsc
+    have hm : e ∈ ed s QN_STYLE := by unfold ed; rw [← he, hl]; simp
+    have hu' : underStyles s e = true := by unfold underStyles at hu ⊢; rw [hh] at hu; exact hu
+    have het : e ≠ s.top := by intro h; apply underStyles_parent hu'; rw [h]; exact hC.top_root
+    exact ((hC.mem_iff QN_STYLE e het).mp hm).2.2
+  unfold lookupStyle at hrun
+  rw [DomDoc.run_bind] at hrun
+  rcases hrs : (registeredStyle n).run s with ⟨s1, r1⟩
+  rw [hrs] at hrun
+  obtain ⟨hR1, _⟩ := grow_registeredStyle qnOnly_true n s s1 r1 trivial hrs
+  have hQ1 := sdq_of_Rq hQ hR1
+  have hh1 : s1.heap = s.heap ∧ s1.edict = s.edict := by
+    unfold registeredStyle DM.run at hrs
+    dsimp only at hrs
+    split at hrs
+    · cases hrs; exact ⟨rfl, rfl⟩
+    · split at hrs <;> (cases hrs; exact ⟨rfl, rfl⟩)
+  cases r1 with
+  | error e => simp only at hrun; cases hrun; exact hQ1
+  | ok o =>
+    simp only at hrun
+    cases o with
+    | some e => simp only [DomDoc.run_pure] at hrun; cases hrun; exact hQ1
+    | none =>
+      simp only [DomDoc.run_bind_rd] at hrun
+      cases hsc : scanStyles s1 n (edGet s1.edict QN_STYLE) with
+      | none => rw [hsc] at hrun; cases hrun; exact hQ1
+      | some e0 =>
+        rw [hsc] at hrun
+        cases hrun
+        have hq0 := hscanq s1 hh1.1 hh1.2 e0 hsc
+        intro p hp
+        show (s1.heap p.2).qn = QN_STYLE
+        rcases mem_sdSet hp with h | h
+        · exact hQ1 p h
+        · rw [h, hh1.1]; exact hq0
+
+theorem notInSd_of_Rq {s s' : DState} {i : Id} (hn : NotInSd s i) (hq : (s.heap i).qn ≠ QN_STYLE) (h : Rq s s') :
+    NotInSd s' i := by
+  intro p hp e
+  rcases h.2 p hp with h1 | h1
+  · exact hn p h1 e
+  · rw [e] at h1; exact hq h1
+
+theorem sdq_styleByName {n : Nat} {s s' : DState} {r : Except Err (Option Id)} (hG : Good s) (hQ : SdQ s)
+    (hrun : (styleByName n).run s = (s', r)) : SdQ s' := by
+  rw [styleByName_eq] at hrun
+  simp only [DomDoc.run_bind_rd] at hrun
+  by_cases he : s.sdict.isEmpty = true
+  · simp only [he, if_true] at hrun
+    rw [DomDoc.run_bind] at hrun
+    rcases hb : (rebuildAll).run s with ⟨s1, r1⟩
+    rw [hb] at hrun
+    have hQ1 : SdQ s1 := sdq_grow grow_rebuildAll hQ hb
+    cases r1 with
+    | error e => simp only at hrun; cases hrun; exact hQ1
+    | ok u =>
+      simp only at hrun
+      exact sdq_lookupStyle (rebuildAll_good hG hb (by intro h; cases h)) hQ1 hrun
+  · simp only [he, if_false, DomDoc.run_bind_pure, Bool.false_eq_true] at hrun
+    exact sdq_lookupStyle hG hQ hrun
+
+theorem grow_docByType (q : Nat) : Grow PT (docByType q) := by
+  unfold docByType
+  apply grow_bind (grow_rd _ _); intro b
+  try dsimp only
+  apply grow_ite
+  · exact grow_bind grow_rebuildAll (fun _ => grow_rd _ _)
+  · first | exact grow_rd _ _ | exact grow_bind (grow_pure _ _) (fun _ => grow_rd _ _)
+
+theorem sdq_replaceGenerator {mt g t : Id} {s s' : DState} {r : Except Err Unit} (hQ : SdQ s)
+    (hng : NotInSd s g) (hnt : NotInSd s t) (hqg : (s.heap g).qn ≠ QN_STYLE) (hqt : (s.heap t).qn ≠ QN_STYLE)
+    (hgt : g ≠ t) (hrun : (replaceGenerator mt g t).run s = (s', r)) : SdQ s' := by
+  unfold replaceGenerator at hrun
+  simp only [DomDoc.run_bind_rd] at hrun
+  rw [DomDoc.run_bind] at hrun
+  have hloopG : Grow PT (forEach (fun m => do
+      if (← rdD fun s => decide ((s.heap m).kind = .elem) && decide ((s.heap m).qn = QN_GENERATOR)) then
+        DomDoc.removeChild mt m : Id → DM Unit) (s.heap mt).kids) := by
+    apply grow_forEach
+    intro m
+    apply grow_bind (grow_rd _ _); intro b
+    exact grow_ite _ (grow_removeChild mt m) (grow_pure _ _)
+  rcases hloop : (forEach (fun m => do
+      if (← rdD fun s => decide ((s.heap m).kind = .elem) && decide ((s.heap m).qn = QN_GENERATOR)) then
+        DomDoc.removeChild mt m : Id → DM Unit) (s.heap mt).kids).run s with ⟨s1, r1⟩
+  rw [hloop] at hrun
+  obtain ⟨hR1, _⟩ := hloopG s s1 r1 trivial hloop
+  have hQ1 := sdq_of_Rq hQ hR1
+  cases r1 with
+  | error e => simp only at hrun; cases hrun; exact hQ1
+  | ok u =>
+    simp only at hrun
+    rw [run_bind_liftH, initNode_run] at hrun
+    simp only at hrun
+    have hng1 := notInSd_of_Rq hng hqg hR1
+    have hnt1 := notInSd_of_Rq hnt hqt hR1
+    have hQ2 := sdq_initNode hQ1 hng1 .elem QN_GENERATOR
+    rw [DomDoc.run_bind] at hrun
+    rcases hat : (DomDoc.addText g t true true).run
+        ({ s1 with heap := s1.heap.set g { kind := .elem, qn := QN_GENERATOR } } : DState) with ⟨s3, r3⟩
+    rw [hat] at hrun
+    have hQ3 : SdQ s3 := sdq_addText hQ2 hnt1 hat
+    cases r3 with
+    | error e => simp only at hrun; cases hrun; exact hQ3
+    | ok u2 =>
+      simp only at hrun
+      exact sdq_grow (grow_addElement mt g true) hQ3 hrun
+
+/-- allocation discipline towards the style dictionary: a new object is none the dictionary still
+    refers to (and, for the generator objects, not a former style:style) -/
+def OpOkSd (s : DState) : DOp → Prop
+  | .tree (.newNode i _ _) => NotInSd s i
+  | .tree (.addText _ t _ _) => NotInSd s t
+  | .tree (.addCDATA _ t _) => NotInSd s t
+  | .replaceGenerator _ g t => NotInSd s g ∧ NotInSd s t ∧ (s.heap g).qn ≠ QN_STYLE ∧ (s.heap t).qn ≠ QN_STYLE ∧ g ≠ t
+  | _ => True
+
+theorem sdq_step {s s' : DState} {op : DOp} {r : Except Err Unit} (hG : Good s) (hQ : SdQ s) (hok : OpOkSd s op)
+    (hrun : (stepD op).run s = (s', r)) : SdQ s' := by
+  cases op with
+  | mkDoc t =>
+    simp only [stepD, mkDoc] at hrun; cases hrun
+    intro p hp; cases hp
+  | replaceGenerator m g t =>
+    obtain ⟨hng, hnt, hqg, hqt, hgt⟩ := hok
+    simp only [stepD] at hrun
+    rw [DomDoc.run_bind, liftH_fresh_run] at hrun
+    by_cases hbg : Blank s.heap g
+    · simp only [hbg, if_true] at hrun
+      rw [DomDoc.run_bind, liftH_fresh_run] at hrun
+      by_cases hbt : Blank s.heap t
+      · simp only [hbt, if_true] at hrun
+        exact sdq_replaceGenerator hQ hng hnt hqg hqt hgt hrun
+      · simp only [hbt, if_false] at hrun; cases hrun; exact hQ
+    · simp only [hbg, if_false] at hrun; cases hrun; exact hQ
+  | byType q =>
+    simp only [stepD] at hrun
+    exact sdq_grow (grow_bind (grow_docByType q) (fun _ => grow_pure _ _)) hQ hrun
+  | styleByName n =>
+    simp only [stepD] at hrun
+    rw [DomDoc.run_bind] at hrun
+    rcases hb : (styleByName n).run s with ⟨s1, r1⟩
+    rw [hb] at hrun
+    have := sdq_styleByName hG hQ hb
+    cases r1 with
+    | error e => simp only at hrun; cases hrun; exact this
+    | ok l => simp only [DomDoc.run_pure] at hrun; cases hrun; exact this
+  | tree top =>
+    cases top with
+    | newNode i k qn =>
+      simp only [stepD, step] at hrun
+      rw [run_liftH, Dom.run_bind, fresh_run] at hrun
+      by_cases hb : Blank s.heap i
+      · simp only [hb, if_true, initNode_run] at hrun
+        cases hrun; exact sdq_initNode hQ hok k qn
+      · simp only [hb, if_false] at hrun
+        cases hrun; exact hQ
+    | append p c => exact sdq_grow (grow_appendChild p c) hQ hrun
+    | insertBefore p n ref => exact sdq_grow (grow_insertBefore p n ref) hQ hrun
+    | remove p c => exact sdq_grow (grow_removeChild p c) hQ hrun
+    | addElement p c a => exact sdq_grow (grow_addElement p c a) hQ hrun
+    | addText p t a ne =>
+      simp only [stepD] at hrun
+      rw [DomDoc.run_bind, liftH_fresh_run] at hrun
+      by_cases hb : Blank s.heap t
+      · simp only [hb, if_true] at hrun; exact sdq_addText hQ hok hrun
+      · simp only [hb, if_false] at hrun; cases hrun; exact hQ
+    | addCDATA p t a =>
+      simp only [stepD] at hrun
+      rw [DomDoc.run_bind, liftH_fresh_run] at hrun
+      by_cases hb : Blank s.heap t
+      · simp only [hb, if_true] at hrun; exact sdq_addCDATA hQ hok hrun
+      · simp only [hb, if_false] at hrun; cases hrun; exact hQ
+    | setAttribute e k t a key conv =>
+      simp only [stepD] at hrun
+      exact sdq_grow (grow_liftH qnOnly_true _ (fun h y => (setAttribute_sameLinks h e k t a key conv y).2.2.2.2.2)) hQ hrun
+    | setAttrNS e key conv =>
+      simp only [stepD] at hrun
+      exact sdq_grow (grow_liftH qnOnly_true _ (fun h y => (setAttrNS_sameLinks h e key conv y).2.2.2.2.2)) hQ hrun
+    | removeAttribute e k t a key =>
+      simp only [stepD] at hrun
+      exact sdq_grow (grow_liftH qnOnly_true _ (fun h y => (removeAttribute_sameLinks h e k t a key y).2.2.2.2.2)) hQ hrun
+
+/-- a history that meets `HistoryOk` and the allocation discipline towards the style dictionary -/
+def HistoryOk2 : DState → List DOp → Prop
+  | _, [] => True
+  | s, op :: rest => OpOk s op ∧ OpOkSd s op ∧ ((stepD op).run s).2 ≠ .error .RecursionError ∧
+      HistoryOk2 ((stepD op).run s).1 rest
+
+theorem reachable_runD (ops : List DOp) : ∀ s, Good s → SdQ s → HistoryOk2 s ops →
+    Good (runD s ops) ∧ SdQ (runD s ops) := by
+  induction ops with
+  | nil => intro s hG hQ _; exact ⟨hG, hQ⟩
+  | cons op rest ih =>
+    intro s hG hQ hh
+    exact ih _ (coherent_step_partial hG hh.1 rfl hh.2.2.1) (sdq_step hG hQ hh.2.1 rfl) hh.2.2.2
+
+/-- **C09 (name lookup, every reachable state)**: in every state reachable from a fresh document
+    (side conditions as in `coherent_reachable_partial`: no RecursionError, no insertion into an own
+    descendant), `getStyleByName(n)` leaves the tree and its links untouched, keeps the element
+    index coherent, and answers `none` exactly when no attached style:style under office:styles /
+    office:automatic-styles bears the name `n`, otherwise such a style — independently of what the
+    style dictionary held. -/
+theorem getStyleByName_correct_partial (q : Nat) (ops : List DOp) (hh : HistoryOk2 (freshDoc q) ops)
+    {n : Nat} {s' : DState} {r : Option Id}
+    (hrun : (styleByName n).run (runD (freshDoc q) ops) = (s', .ok r)) :
+    Good s' ∧ SdQ s' ∧ SameLinks (runD (freshDoc q) ops).heap s'.heap ∧
+    (r = none ↔ ∀ e, ¬ Cand s' n e) ∧ (∀ e, r = some e → Cand s' n e) := by
+  have hfreshQ : SdQ (freshDoc q) := by intro p hp; cases hp
+  obtain ⟨hG, hQ⟩ := reachable_runD ops _ (good_fresh q) hfreshQ hh
+  generalize runD (freshDoc q) ops = s at hG hQ hrun
+  have hG' := styleByName_good hG hrun (by intro h; cases h)
+  have hQ' := sdq_styleByName hG hQ hrun
+  rw [styleByName_eq] at hrun
+  simp only [DomDoc.run_bind_rd] at hrun
+  by_cases he : s.sdict.isEmpty = true
+  · simp only [he, if_true] at hrun
+    rw [DomDoc.run_bind] at hrun
+    rcases hb : (rebuildAll).run s with ⟨s1, r1⟩
+    rw [hb] at hrun
+    cases r1 with
+    | error e => simp only at hrun; cases hrun
+    | ok u =>
+      simp only at hrun
+      have hG1 := rebuildAll_good hG hb (by intro h; cases h)
+      have hQ1 : SdQ s1 := sdq_grow grow_rebuildAll hQ hb
+      obtain ⟨⟨hh1, _, _, ht1, _⟩, hnone, hsome⟩ := lookupStyle_spec hG1 hQ1 hrun
+      have hs1 : SameLinks s.heap s1.heap := by
+        unfold rebuildAll at hb
+        simp only [DomDoc.run_bind_upd, DomDoc.run_bind_rd] at hb
+        rw [rebuildCaches_run] at hb
+        cases hl : elemsUnder s.heap s.top with
+        | none => simp only [hl] at hb; cases hb
+        | some l =>
+          simp only [hl] at hb; cases hb
+          exact (foldBuild_view l { s with edict := [], sdict := [] }).1
+      refine ⟨hG', hQ', by rw [hh1]; exact hs1, ?_, ?_⟩
+      · rw [hnone]; exact forall_congr' (fun e => not_congr (cand_of_same hh1 ht1 n e).symm)
+      · intro e he'; exact (cand_of_same hh1 ht1 n e).mpr (hsome e he')
+  · simp only [he, if_false, DomDoc.run_bind_pure, Bool.false_eq_true] at hrun
+    obtain ⟨⟨hh1, _, _, ht1, _⟩, hnone, hsome⟩ := lookupStyle_spec hG hQ hrun
+    refine ⟨hG', hQ', by rw [hh1]; exact SameLinks.refl _, ?_, ?_⟩
+    · rw [hnone]; exact forall_congr' (fun e => not_congr (cand_of_same hh1 ht1 n e).symm)
+    · intro e he'; exact (cand_of_same hh1 ht1 n e).mpr (hsome e he')
 
 /-- the hypotheses of `coherent_reachable_partial` are satisfiable: a P-like element 1 is created, added
     under the top node, and queried -/
@@ -2116,5 +2891,32 @@ example : HistoryOk (freshDoc 9) [.tree (.newNode 1 .elem 5), .tree (.append 0 1
     decide
 
 example : ed (runD (freshDoc 9) [.tree (.newNode 1 .elem 5), .tree (.append 0 1), .byType 5]) 5 = [1] := by decide
+
+/-! ### the former findings KF-C09-1/2, now positive examples -/
+
+/-- document 0 with office:styles 1 (attached) and a style 2 named 7 under it -/
+def docWithStyle : DState :=
+  runD (freshDoc 9) [.tree (.newNode 1 .elem QN_STYLES), .tree (.append 0 1), .tree (.newNode 2 .elem QN_STYLE),
+    .tree (.setAttrNS 2 KEY_STYLE_NAME (.ok 7)), .tree (.append 1 2)]
+
+/-- after a rename of the attached style the new name finds it and the old name finds nothing; after its
+    removal neither does -/
+example :
+    let s1 := runD docWithStyle [.tree (.setAttrNS 2 KEY_STYLE_NAME (.ok 8))]
+    let s2 := runD s1 [.tree (.remove 1 2)]
+    ((styleByName 8).run s1).2 = .ok (some 2) ∧ ((styleByName 7).run s1).2 = .ok none ∧
+    ((styleByName 8).run s2).2 = .ok none ∧ ((styleByName 7).run s2).2 = .ok none := by
+  refine ⟨by rfl, by rfl, by rfl, by rfl⟩
+
+/-- styles 'MA' (2), 'A' (3), then a second 'A' (4, renamed 'MA' on the clash): after 4 is removed
+    the lookup of 'MA' finds the older style 2 again -/
+example :
+    let s := runD (freshDoc 9) [.tree (.newNode 1 .elem QN_STYLES), .tree (.append 0 1),
+      .tree (.newNode 2 .elem QN_STYLE), .tree (.setAttrNS 2 KEY_STYLE_NAME (.ok (mName 7))), .tree (.append 1 2),
+      .tree (.newNode 3 .elem QN_STYLE), .tree (.setAttrNS 3 KEY_STYLE_NAME (.ok 7)), .tree (.append 1 3),
+      .tree (.newNode 4 .elem QN_STYLE), .tree (.setAttrNS 4 KEY_STYLE_NAME (.ok 7)), .tree (.append 1 4)]
+    let s' := runD s [.tree (.remove 1 4)]
+    ((styleByName (mName 7)).run s).2 = .ok (some 4) ∧ ((styleByName (mName 7)).run s').2 = .ok (some 2) := by
+  refine ⟨by rfl, by rfl⟩
 
 end OdfModel.Props.C09
